@@ -7,7 +7,7 @@ branch where the rule map happens to be uniquely owned."""
 from vfacts import strip, walk, method_name, must_pass_through, root_path
 
 RULE = 'CLEARALL'
-FLOOR = 2
+FLOOR = 1
 ANCHORS = ['ExplicitTreeAutCore::Clear']
 
 
